@@ -173,6 +173,8 @@ theorem runValidate_results_indep (o : Opts) (i w : Bool) (hab : o.abortOnFirst 
     Out.results (runValidate (o.withWaivers i w) sg dg rx focus []) = Out.results (runValidate o sg dg rx focus []) := by
   unfold runValidate
   simp only []
+  split
+  · rfl
   cases buildShapes sg with
   | error e => rfl
   | ok shapes =>
